@@ -373,8 +373,13 @@ def _spawn(spec: Dict[str, Any]) -> subprocess.Popen:
     env.setdefault("OMP_NUM_THREADS", "1")
     env.setdefault("OPENBLAS_NUM_THREADS", "1")
     err = open(spec["out"] + ".stderr", "wb")
-    return subprocess.Popen([sys.executable, "-m", "vfw.shard", json.dumps(spec)], cwd=ROOT, env=env,
-                            stdout=err, stderr=err)
+    cmd = [sys.executable, "-m", "vfw.shard", json.dumps(spec)]
+    cov = os.environ.get("VFW_COVERAGE_DIR")  # development aid (tools/coverage_report.sh): which cobra lines a tier reaches
+    if cov:
+        env.setdefault("COVERAGE_CORE", "sysmon")
+        cmd = [sys.executable, "-m", "coverage", "run", "-p", f"--data-file={cov}/.coverage",
+               "--include=*/src/cobra/*", "-m", "vfw.shard", json.dumps(spec)]
+    return subprocess.Popen(cmd, cwd=ROOT, env=env, stdout=err, stderr=err)
 
 
 def replay_entry(mod, check_name: Optional[str], case, known=()):
